@@ -176,6 +176,11 @@ Proof.
   rewrite ser_str_sig by auto. reflexivity.
 Qed.
 
+Lemma sstate_ext a b :
+  s_cfg a = s_cfg b -> s_e a = s_e b -> s_pos0 a = s_pos0 b -> s_out a = s_out b -> s_sig a = s_sig b ->
+  s_vsign a = s_vsign b -> s_dep a = s_dep b -> s_fds a = s_fds b -> a = b.
+Proof. destruct a, b; cbn; intros; subst; reflexivity. Qed.
+
 (* ---------- arrays: begin, elements, back-patched end ---------- *)
 Ltac proj := unfold grow, wr, set_out, set_sig, set_vsign, set_dep, set_fds in *; cbn [s_cfg s_e s_pos0 s_out s_sig s_vsign s_dep s_fds] in *.
 
@@ -218,12 +223,344 @@ Proof.
   rewrite Hw. replace (written st + len p0 + 4 + len p1 + len body - (written st + len p0 + 4 + len p1)) with (len body) by lia.
   destruct (N.ltb_spec (len body) (2 ^ 32)) as [_|]; [|lia]. cbn [negb].
   replace (written st + len p0 + 4 + len p1 + len body - (len body + len p1 + 4)) with (written st + len p0) by lia.
-  f_equal. subst st'. destruct st as [cf e pos0 out sg vs dep fds]. unfold written. proj. rewrite Hdec. proj.
-  unfold p0, p1 in *. unfold abs_pos, written in *. proj.
-  set (q0 := pad (pos0 + len out) 4) in *. set (q1 := pad (pos0 + len out + len q0 + 4) al) in *.
-  replace ((out ++ q0 ++ enc e 4 0 ++ q1) ++ body) with ((out ++ q0) ++ enc e 4 0 ++ (q1 ++ body))
-    by (rewrite <- !app_assoc; reflexivity).
-  replace (len out + len q0) with (len (out ++ q0)) by (now rewrite len_app).
-  rewrite patch_mid by (now rewrite !length_enc).
-  rewrite <- !app_assoc. rewrite ?add_fds_nil. reflexivity.
+  f_equal. clear Hf Hb Hinc.
+  assert (Ho : s_out st' ++ body = (s_out st ++ p0) ++ enc (s_e st) 4 0 ++ (p1 ++ body)).
+  { subst st'. cbn [s_out grow set_dep set_sig set_out set_fds]. rewrite <- !app_assoc. reflexivity. }
+  apply sstate_ext; cbn [s_cfg s_e s_pos0 s_out s_sig s_vsign s_dep s_fds set_sig set_dep set_out set_fds grow]; try reflexivity.
+  - rewrite Ho. change (s_e st') with (s_e st).
+    replace (written st + len p0) with (len (s_out st ++ p0)) by (rewrite len_app; reflexivity).
+    rewrite patch_mid by (now rewrite !length_enc). rewrite <- !app_assoc. reflexivity.
+  - subst st'. cbn [s_dep set_dep set_sig grow set_fds set_out]. exact Hdec.
+  - subst st'. cbn [s_fds set_dep set_sig grow set_fds set_out]. now rewrite add_fds_nil.
 Qed.
+
+Lemma after_props st v :
+  abs_pos (after st v) = abs_pos st + len (marshal (s_e st) ByOccurrence v (abs_pos st) (nfd st)) /\
+  nfd (after st v) = nfd st + nfds v /\ s_sig (after st v) = s_sig st /\ s_vsign (after st v) = s_vsign st /\
+  s_dep (after st v) = s_dep st /\ s_e (after st v) = s_e st /\ s_cfg (after st v) = s_cfg st.
+Proof. unfold after. rewrite abs_pos_grow, nfd_grow. repeat split; reflexivity. Qed.
+
+Lemma elems_ok l : Forall good l -> forall st el,
+  forallb (fun x => wf x && sig_eqb (vsig x) el) l = true ->
+  s_sig st = el -> s_vsign st = None -> dep_ok (s_dep st) ->
+  forallb (depth_ok (d_struct (s_dep st)) (d_array (s_dep st)) (d_variant (s_dep st))) l = true ->
+  nfd st + N.of_nat (length (concat (map fds_of l))) < 2 ^ 32 ->
+  len (mseq (s_e st) ByOccurrence l (abs_pos st) (nfd st)) < 2 ^ 32 ->
+  ser_elems (map sval_of l) st
+  = Ok (grow st (mseq (s_e st) ByOccurrence l (abs_pos st) (nfd st)) (concat (map fds_of l))).
+Proof.
+  induction 1 as [|x l Hx Hl IH]; intros st el Hw Hs Hv Hd Hdep Hn Hlen.
+  - cbn. now rewrite grow_nil.
+  - cbn [forallb] in Hw, Hdep. apply andb_true_iff in Hw as [Hwx Hw]. apply andb_true_iff in Hwx as [Hwx Hsx].
+    apply andb_true_iff in Hdep as [Hdx Hdep]. apply sig_eqb_eq in Hsx.
+    cbn [map concat mseq] in *. rewrite app_length, Nat2N.inj_add in Hn. rewrite len_app in Hlen.
+    cbn [ser_elems].
+    assert (G := Hx st Hwx ltac:(congruence) Hv (conj Hd Hdx) ltac:(unfold nfds; lia) ltac:(lia)). rewrite G.
+    cbn [bind]. destruct (after_props st x) as (Hp & Hf & Hsg & Hvs & Hde & He & _).
+    assert (G2 := IH (after st x) el Hw ltac:(congruence) ltac:(congruence)).
+    rewrite Hde in G2. rewrite Hf in G2. rewrite Hp in G2. rewrite He in G2. specialize (G2 Hd Hdep ltac:(unfold nfds; lia) ltac:(lia)). rewrite G2.
+    unfold after at 1. rewrite grow_grow. rewrite ?Hp, ?Hf, ?He. reflexivity.
+Qed.
+
+(* ---------- arrays ---------- *)
+Lemma single_align c : single_ok c = true -> align_of c = Ok (align_dbus c).
+Proof. destruct c; cbn; congruence. Qed.
+
+Lemma good_array el l : Forall good l -> good (VArray el l).
+Proof.
+  intros HF st Hw Hs Hv [Hd Hdep] Hn Hlen. cbn [sval_of]. rewrite ser_seq.
+  cbn [wf] in Hw. apply andb_true_iff in Hw as [Hel Hw]. cbn [vsig] in Hs.
+  cbn [depth_ok] in Hdep. apply andb_true_iff in Hdep as [Hdep Hdl]. apply andb_true_iff in Hdep as [Ha Ht].
+  apply N.leb_le in Ha, Ht.
+  destruct (inc_array_ok (s_dep st) Hd Ha Ht) as (d' & Hinc & Hdec & Hd' & E1 & E2 & E3).
+  rewrite marshal_array in Hlen. cbv zeta in Hlen. rewrite !len_app in Hlen.
+  set (p0 := pad (abs_pos st) 4) in *. set (p1 := pad (abs_pos st + len p0 + 4) (align_dbus el)) in *.
+  set (st' := set_dep (set_sig (grow st (p0 ++ enc (s_e st) 4 0 ++ p1) []) el) d').
+  assert (Hpos : abs_pos st' = abs_pos st + len p0 + 4 + len p1).
+  { subst st'. change (abs_pos (set_dep (set_sig (grow st (p0 ++ enc (s_e st) 4 0 ++ p1) []) el) d'))
+      with (abs_pos (grow st (p0 ++ enc (s_e st) 4 0 ++ p1) [])). rewrite abs_pos_grow, !len_app, len_enc. lia. }
+  assert (Hnf : nfd st' = nfd st).
+  { subst st'. change (nfd (set_dep (set_sig (grow st (p0 ++ enc (s_e st) 4 0 ++ p1) []) el) d'))
+      with (nfd (grow st (p0 ++ enc (s_e st) 4 0 ++ p1) [])). rewrite nfd_grow. cbn. lia. }
+  pose proof (elems_ok l HF st' el Hw eq_refl Hv) as He.
+  change (s_dep st') with d' in He. change (s_e st') with (s_e st) in He. rewrite E1, E2, E3, Hpos, Hnf in He.
+  specialize (He Hd' Hdl). cbn [fds_of nfds] in Hn.
+  specialize (He ltac:(unfold nfds in Hn; cbn [fds_of] in Hn; lia) ltac:(lia)).
+  rewrite (seq_wrap st el (align_dbus el) d' (ser_elems (map sval_of l)) _ _
+             (or_introl (conj Hs (single_align el Hel))) Hinc Hdec He) by lia.
+  unfold after. rewrite marshal_array. cbv zeta. fold p0 p1. reflexivity.
+Qed.
+
+(* ---------- structs ---------- *)
+Lemma back_after st g x : s_vsign st = None ->
+  back_from st (after (sub_of st g) x) = grow st (marshal (s_e st) ByOccurrence x (abs_pos st) (nfd st)) (fds_of x).
+Proof.
+  intros Hv. apply sstate_ext; try reflexivity. cbn. now rewrite Hv.
+Qed.
+
+Lemma fields_ok l : Forall good l -> forall st pre,
+  s_sig st = SStruct (pre ++ map vsig l) -> s_vsign st = None -> forallb wf l = true -> dep_ok (s_dep st) ->
+  forallb (depth_ok (d_struct (s_dep st)) (d_array (s_dep st)) (d_variant (s_dep st))) l = true ->
+  nfd st + N.of_nat (length (concat (map fds_of l))) < 2 ^ 32 ->
+  len (mseq (s_e st) ByOccurrence l (abs_pos st) (nfd st)) < 2 ^ 32 ->
+  ser_fields (map sval_of l) (length pre) st
+  = Ok (grow st (mseq (s_e st) ByOccurrence l (abs_pos st) (nfd st)) (concat (map fds_of l))).
+Proof.
+  induction 1 as [|x l Hx Hl IH]; intros st pre Hs Hv Hw Hd Hdep Hn Hlen.
+  - cbn. now rewrite grow_nil.
+  - cbn [forallb] in Hw, Hdep. apply andb_true_iff in Hw as [Hwx Hw]. apply andb_true_iff in Hdep as [Hdx Hdep].
+    cbn [map concat mseq] in *. rewrite app_length, Nat2N.inj_add in Hn. rewrite len_app in Hlen.
+    cbn [ser_fields]. unfold field_sig. rewrite Hs.
+    rewrite nth_error_app2 by lia. rewrite Nat.sub_diag. cbn [nth_error bind].
+    assert (G := Hx (sub_of st (vsig x)) Hwx eq_refl eq_refl (conj Hd Hdx)).
+    change (nfd (sub_of st (vsig x))) with (nfd st) in G. change (s_e (sub_of st (vsig x))) with (s_e st) in G.
+    change (abs_pos (sub_of st (vsig x))) with (abs_pos st) in G.
+    specialize (G ltac:(unfold nfds; lia) ltac:(lia)). rewrite G. cbn [bind]. rewrite back_after by assumption.
+    set (st1 := grow st (marshal (s_e st) ByOccurrence x (abs_pos st) (nfd st)) (fds_of x)).
+    assert (G2 := IH st1 (pre ++ [vsig x])). rewrite app_length in G2. cbn [length] in G2.
+    replace (length pre + 1)%nat with (S (length pre)) in G2 by lia.
+    assert (Hs1 : s_sig st1 = SStruct ((pre ++ [vsig x]) ++ map vsig l)) by (subst st1; rewrite sig_grow, Hs, <- app_assoc; reflexivity).
+    specialize (G2 Hs1 Hv Hw). subst st1. rewrite dep_grow, e_grow, abs_pos_grow, nfd_grow in G2.
+    specialize (G2 Hd Hdep ltac:(unfold nfds in *; lia) ltac:(unfold nfds in *; lia)). rewrite G2.
+    rewrite grow_grow. reflexivity.
+Qed.
+
+Lemma good_struct l : Forall good l -> good (VStruct l).
+Proof.
+  intros HF st Hw Hs Hv [Hd Hdep] Hn Hlen. cbn [sval_of]. rewrite ser_tuple.
+  cbn [wf] in Hw. apply andb_true_iff in Hw as [_ Hw]. cbn [vsig] in Hs.
+  cbn [depth_ok] in Hdep. apply andb_true_iff in Hdep as [Hdep Hdl]. apply andb_true_iff in Hdep as [Ha Ht].
+  apply N.leb_le in Ha, Ht.
+  destruct (inc_struct_ok (s_dep st) Hd Ha Ht) as (d' & Hinc & Hd' & E1 & E2 & E3).
+  unfold struct_begin. rewrite Hs. cbn [align_of align_dbus bind]. rewrite padded_grow.
+  rewrite sig_grow, Hs, dep_grow, Hinc. cbn [bind].
+  rewrite marshal_struct in Hlen. cbv zeta in Hlen. rewrite len_app in Hlen.
+  set (p0 := pad (abs_pos st) 8) in *.
+  set (st' := set_dep (grow st p0 []) d').
+  assert (G := fields_ok l HF st' [] ltac:(subst st'; cbn; exact Hs) Hv Hw).
+  change (s_dep st') with d' in G. change (s_e st') with (s_e st) in G.
+  assert (Hpos : abs_pos st' = abs_pos st + len p0) by (subst st'; change (abs_pos (set_dep (grow st p0 []) d')) with (abs_pos (grow st p0 [])); now rewrite abs_pos_grow).
+  assert (Hnf : nfd st' = nfd st) by (subst st'; change (nfd (set_dep (grow st p0 []) d')) with (nfd (grow st p0 [])); rewrite nfd_grow; cbn; lia).
+  rewrite E1, E2, E3, Hpos, Hnf in G. cbn [fds_of] in Hn. unfold nfds in Hn. cbn [fds_of] in Hn.
+  specialize (G Hd' Hdl ltac:(lia) ltac:(lia)). cbn [length] in G. rewrite G. cbn [bind]. f_equal.
+  unfold after. rewrite marshal_struct. cbv zeta. fold p0. subst st'.
+  apply sstate_ext; try reflexivity.
+  - cbn. now rewrite <- app_assoc.
+  - cbn. now rewrite add_fds_nil.
+Qed.
+
+(* ---------- variants ---------- *)
+Lemma good_variant x : good x -> good (VVariant x).
+Proof.
+  intros Hx st Hw Hs Hv [Hd Hdep] Hn Hlen. cbn [sval_of]. rewrite ser_struct_named.
+  cbn [wf] in Hw. apply andb_true_iff in Hw as [Hw Hl255]. apply andb_true_iff in Hw as [Hw Hso].
+  apply N.leb_le in Hl255. cbn [vsig] in Hs.
+  cbn [depth_ok] in Hdep. apply andb_true_iff in Hdep as [Ht Hdx]. apply N.leb_le in Ht.
+  destruct (inc_variant_ok (s_dep st) Hd Ht) as (d' & Hinc & Hd' & E1 & E2 & E3).
+  unfold struct_begin. rewrite Hs. cbn [align_of align_dbus bind]. rewrite padded_grow, pad_1, grow_nil.
+  rewrite Hs, Hinc. cbn [bind].
+  set (g := vsig x) in *. set (sg := show g) in *.
+  set (hdr := nb (len sg) :: sg ++ [x00]).
+  cbn [marshal] in Hlen. fold g sg hdr in Hlen. rewrite len_app in Hlen.
+  set (st1 := set_dep st d').
+  cbn [ser_nfields]. unfold field_sig at 1. change (s_sig st1) with (s_sig st). rewrite Hs.
+  change (s_vsign st1) with (s_vsign st). rewrite Hv. cbn [bind].
+  (* first field: the signature string, under signature Variant *)
+  cbn [ser]. unfold ser_str. change (s_sig (sub_of st1 SVariant)) with SVariant. cbn [align_of align_dbus bind].
+  rewrite padded_grow, pad_1, grow_nil. change (s_sig (sub_of st1 SVariant)) with SVariant.
+  change (c_gv (s_cfg (sub_of st1 SVariant))) with (c_gv (s_cfg st)).
+  pose proof (parse_show (c_gv (s_cfg st)) g (single_printable g Hso)) as Hps. fold sg in Hps. rewrite Hps. cbn [bind].
+  destruct (N.leb_spec (len sg) 255) as [_|]; [|lia]. cbn [bind].
+  rewrite !wr_grow, !grow_grow. cbn [app].
+  (* second field: the value, under the signature put aside *)
+  unfold field_sig. cbn [s_sig s_vsign back_from set_vsign set_fds set_out grow set_sig sub_of set_dep bind].
+  set (st2 := sub_of (back_from st1 (grow (set_vsign (sub_of st1 SVariant) (Some g)) (nb (len sg) :: sg ++ [x00]) [])) g).
+  assert (G := Hx st2 Hw eq_refl eq_refl).
+  assert (Hp2 : abs_pos st2 = abs_pos st + len hdr).
+  { subst st2 st1. clear. destruct st. unfold abs_pos, written. cbn -[len]. rewrite len_app. fold hdr. lia. }
+  assert (Hn2 : nfd st2 = nfd st).
+  { subst st2 st1. clear. destruct st. unfold nfd. cbn -[add_fds]. rewrite add_fds_nil. reflexivity. }
+  change (s_dep st2) with d' in G. change (s_e st2) with (s_e st) in G.
+  assert (Hfit : fits d' x) by (split; [exact Hd'|rewrite E1, E2, E3; exact Hdx]).
+  rewrite Hp2, Hn2 in G. cbn [fds_of] in Hn. unfold nfds in Hn. cbn [fds_of] in Hn.
+  specialize (G Hfit ltac:(unfold nfds; lia) ltac:(lia)).
+  change (s_sig st1) with (s_sig st). rewrite Hs. cbn [bind]. fold st2. rewrite G. cbn [bind]. f_equal.
+  unfold after. rewrite Hp2, Hn2. change (s_e st2) with (s_e st). cbn [marshal]. fold g sg hdr.
+  subst st2 st1. apply sstate_ext; try reflexivity.
+  - cbn -[len marshal app N.add]. unfold hdr. rewrite <- ?app_assoc. cbn [app]. rewrite <- ?app_assoc. reflexivity.
+  - cbn. now rewrite Hv.
+  - cbn -[add_fds]. rewrite ?add_fds_nil. reflexivity.
+Qed.
+
+(* ---------- dicts ---------- *)
+Lemma entries_ok l : Forall (fun p => good (fst p) /\ good (snd p)) l -> forall st ks vs,
+  forallb (fun p => wf (fst p) && wf (snd p) && sig_eqb (vsig (fst p)) ks && sig_eqb (vsig (snd p)) vs) l = true ->
+  s_sig st = ks -> s_vsign st = None -> dep_ok (s_dep st) ->
+  forallb (fun p => depth_ok (d_struct (s_dep st)) (d_array (s_dep st)) (d_variant (s_dep st)) (fst p)
+                    && depth_ok (d_struct (s_dep st)) (d_array (s_dep st)) (d_variant (s_dep st)) (snd p)) l = true ->
+  nfd st + N.of_nat (length (concat (map (fun p => fds_of (fst p) ++ fds_of (snd p)) l))) < 2 ^ 32 ->
+  len (mentries (s_e st) ByOccurrence l (abs_pos st) (nfd st)) < 2 ^ 32 ->
+  ser_entries (map (fun p => (sval_of (fst p), sval_of (snd p))) l) ks vs st
+  = Ok (grow st (mentries (s_e st) ByOccurrence l (abs_pos st) (nfd st))
+               (concat (map (fun p => fds_of (fst p) ++ fds_of (snd p)) l))).
+Proof.
+  induction 1 as [|[k x] l [Hk Hx] Hl IH]; intros st ks vs Hw Hs Hv Hd Hdep Hn Hlen.
+  - cbn. now rewrite grow_nil.
+  - cbn [forallb fst snd] in Hw, Hdep. apply andb_true_iff in Hw as [Hw1 Hw].
+    apply andb_true_iff in Hw1 as [Hw1 Hsx]. apply andb_true_iff in Hw1 as [Hw1 Hsk]. apply andb_true_iff in Hw1 as [Hwk Hwx].
+    apply sig_eqb_eq in Hsk, Hsx. apply andb_true_iff in Hdep as [Hd1 Hdep]. apply andb_true_iff in Hd1 as [Hdk Hdx].
+    cbn [map concat mentries fst snd] in *. rewrite !app_length, !Nat2N.inj_add in Hn. rewrite !len_app in Hlen.
+    cbn [ser_entries]. rewrite padded_grow.
+    set (b0 := pad (abs_pos st) 8) in *.
+    set (st1 := grow st b0 []).
+    assert (P1 : abs_pos st1 = abs_pos st + len b0) by (subst st1; now rewrite abs_pos_grow).
+    assert (N1 : nfd st1 = nfd st) by (subst st1; rewrite nfd_grow; cbn; lia).
+    assert (G := Hk st1 Hwk ltac:(subst st1; rewrite sig_grow; congruence) Hv (conj Hd Hdk)).
+    change (s_e st1) with (s_e st) in G. rewrite P1, N1 in G.
+    specialize (G ltac:(unfold nfds; lia) ltac:(lia)). rewrite G. cbn [bind].
+    set (b1 := marshal (s_e st) ByOccurrence k (abs_pos st + len b0) (nfd st)) in *.
+    assert (A1 : after st1 k = grow st (b0 ++ b1) (fds_of k)).
+    { unfold after. change (s_e st1) with (s_e st). rewrite P1, N1. fold b1. subst st1. now rewrite grow_grow. }
+    rewrite A1.
+    set (st2 := set_sig (grow st (b0 ++ b1) (fds_of k)) vs).
+    assert (P2 : abs_pos st2 = abs_pos st + len b0 + len b1).
+    { subst st2. change (abs_pos (set_sig (grow st (b0 ++ b1) (fds_of k)) vs)) with (abs_pos (grow st (b0 ++ b1) (fds_of k))).
+      rewrite abs_pos_grow, len_app. lia. }
+    assert (N2 : nfd st2 = nfd st + nfds k).
+    { subst st2. change (nfd (set_sig (grow st (b0 ++ b1) (fds_of k)) vs)) with (nfd (grow st (b0 ++ b1) (fds_of k))).
+      now rewrite nfd_grow. }
+    assert (G2 := Hx st2 Hwx ltac:(subst st2; cbn; congruence) Hv (conj Hd Hdx)).
+    change (s_e st2) with (s_e st) in G2. rewrite P2, N2 in G2.
+    specialize (G2 ltac:(unfold nfds in *; lia) ltac:(lia)). rewrite G2. cbn [bind].
+    set (b2 := marshal (s_e st) ByOccurrence x (abs_pos st + len b0 + len b1) (nfd st + nfds k)) in *.
+    assert (A2 : set_sig (after st2 x) ks = grow st (b0 ++ b1 ++ b2) (fds_of k ++ fds_of x)).
+    { unfold after. change (s_e st2) with (s_e st). rewrite P2, N2. fold b2. subst st2.
+      rewrite set_sig_grow. change (set_sig (set_sig (grow st (b0 ++ b1) (fds_of k)) vs) ks) with (set_sig (grow st (b0 ++ b1) (fds_of k)) ks).
+      rewrite set_sig_grow. rewrite <- Hs, set_sig_id, grow_grow, <- app_assoc. reflexivity. }
+    rewrite A2.
+    set (st3 := grow st (b0 ++ b1 ++ b2) (fds_of k ++ fds_of x)).
+    assert (G3 := IH st3 ks vs Hw ltac:(subst st3; rewrite sig_grow; assumption) Hv).
+    subst st3. rewrite dep_grow, e_grow, abs_pos_grow, nfd_grow, !len_app, app_length, Nat2N.inj_add in G3.
+    replace (abs_pos st + (len b0 + (len b1 + len b2))) with (abs_pos st + len b0 + len b1 + len b2) in G3 by lia.
+    replace (nfd st + (N.of_nat (length (fds_of k)) + N.of_nat (length (fds_of x)))) with (nfd st + nfds k + nfds x) in G3 by (unfold nfds; lia).
+    specialize (G3 Hd Hdep ltac:(unfold nfds in *; lia) ltac:(lia)). rewrite G3.
+    rewrite grow_grow, <- !app_assoc. reflexivity.
+Qed.
+
+Lemma good_dict ks vs l : Forall (fun p => good (fst p) /\ good (snd p)) l -> good (VDict ks vs l).
+Proof.
+  intros HF st Hw Hs Hv [Hd Hdep] Hn Hlen. cbn [sval_of]. cbn [vsig] in Hs. rewrite (ser_map _ st ks vs Hs).
+  cbn [wf] in Hw. apply andb_true_iff in Hw as [Hw0 Hw].
+  cbn [depth_ok] in Hdep. apply andb_true_iff in Hdep as [Hdep Hdl]. apply andb_true_iff in Hdep as [Ha Ht].
+  apply N.leb_le in Ha, Ht.
+  destruct (inc_array_ok (s_dep st) Hd Ha Ht) as (d' & Hinc & Hdec & Hd' & E1 & E2 & E3).
+  rewrite marshal_dict in Hlen. cbv zeta in Hlen. rewrite !len_app in Hlen.
+  set (p0 := pad (abs_pos st) 4) in *. set (p1 := pad (abs_pos st + len p0 + 4) 8) in *.
+  set (st' := set_dep (set_sig (grow st (p0 ++ enc (s_e st) 4 0 ++ p1) []) ks) d').
+  assert (Hpos : abs_pos st' = abs_pos st + len p0 + 4 + len p1).
+  { subst st'. change (abs_pos (set_dep (set_sig (grow st (p0 ++ enc (s_e st) 4 0 ++ p1) []) ks) d'))
+      with (abs_pos (grow st (p0 ++ enc (s_e st) 4 0 ++ p1) [])). rewrite abs_pos_grow, !len_app, len_enc. lia. }
+  assert (Hnf : nfd st' = nfd st).
+  { subst st'. change (nfd (set_dep (set_sig (grow st (p0 ++ enc (s_e st) 4 0 ++ p1) []) ks) d'))
+      with (nfd (grow st (p0 ++ enc (s_e st) 4 0 ++ p1) [])). rewrite nfd_grow. cbn. lia. }
+  pose proof (entries_ok l HF st' ks vs Hw eq_refl Hv) as He.
+  change (s_dep st') with d' in He. change (s_e st') with (s_e st) in He. rewrite E1, E2, E3, Hpos, Hnf in He.
+  specialize (He Hd' Hdl). cbn [fds_of nfds] in Hn. unfold nfds in Hn. cbn [fds_of] in Hn.
+  specialize (He ltac:(lia) ltac:(lia)).
+  rewrite (seq_wrap st ks 8 d' (ser_entries _ ks vs) _ _
+             (or_intror (ex_intro _ vs (conj Hs eq_refl))) Hinc Hdec He) by lia.
+  unfold after. rewrite marshal_dict. cbv zeta. fold p0 p1. reflexivity.
+Qed.
+
+(* ---------- induction over values ---------- *)
+Section DvalInd.
+  Variable P : dval -> Prop.
+  Hypothesis Hleaf : forall v, (match v with VVariant _ | VArray _ _ | VDict _ _ _ | VStruct _ => False | _ => True end) -> P v.
+  Hypothesis Hvar : forall x, P x -> P (VVariant x).
+  Hypothesis Harr : forall e l, Forall P l -> P (VArray e l).
+  Hypothesis Hdict : forall k v l, Forall (fun p => P (fst p) /\ P (snd p)) l -> P (VDict k v l).
+  Hypothesis Hstruct : forall l, Forall P l -> P (VStruct l).
+  Fixpoint dval_ind' (v : dval) : P v :=
+    match v with
+    | VVariant x => Hvar x (dval_ind' x)
+    | VArray e l => Harr e l ((fix go (l : list dval) : Forall P l :=
+                                 match l with [] => Forall_nil P | x :: r => Forall_cons x (dval_ind' x) (go r) end) l)
+    | VDict k vs l => Hdict k vs l ((fix go (l : list (dval * dval)) : Forall (fun p => P (fst p) /\ P (snd p)) l :=
+                                 match l with
+                                 | [] => Forall_nil _
+                                 | (a, b) :: r => Forall_cons (a, b) (conj (dval_ind' a) (dval_ind' b)) (go r)
+                                 end) l)
+    | VStruct l => Hstruct l ((fix go (l : list dval) : Forall P l :=
+                                 match l with [] => Forall_nil P | x :: r => Forall_cons x (dval_ind' x) (go r) end) l)
+    | v' => Hleaf v' I
+    end.
+End DvalInd.
+
+Theorem ser_good : forall v, enc_form v = true -> good v.
+Proof.
+  induction v using dval_ind'; intros He.
+  - destruct v; try contradiction;
+      first [apply good_u8|apply good_bool|apply good_i16|apply good_u16|apply good_i32|apply good_u32
+            |apply good_i64|apply good_u64|apply good_f64|apply good_str|apply good_path|apply good_fd|idtac].
+    cbn in He. destruct np; [discriminate|]. apply good_sigv.
+  - apply good_variant. auto.
+  - apply good_array. cbn [enc_form] in He. rewrite forallb_forall in He. rewrite Forall_forall in *. auto.
+  - apply good_dict. cbn [enc_form] in He. rewrite forallb_forall in He. rewrite Forall_forall in *.
+    intros p Hin. specialize (He p Hin). apply andb_true_iff in He as [H1 H2]. destruct (H p Hin). auto.
+  - apply good_struct. cbn [enc_form] in He. rewrite forallb_forall in He. rewrite Forall_forall in *. auto.
+Qed.
+
+(* ---------- top level: to_bytes_for_signature and serialized_size ---------- *)
+Definition encodable (e : endian) (pos : N) (v : dval) : Prop :=
+  wf v = true /\ enc_form v = true /\ within_limits v = true /\
+  len (marshal_top e pos v) < 2 ^ 32 /\ nfds v < 2 ^ 32.
+
+Lemma abs_pos_init c e pos g f : abs_pos (init_state c e pos g f) = pos.
+Proof. unfold abs_pos, written, init_state. cbn [s_pos0 s_out]. rewrite len_nil. apply N.add_0_r. Qed.
+Lemma nfd_init_fds c e pos g : nfd (init_state c e pos g (FdsMode [])) = 0.
+Proof. reflexivity. Qed.
+Lemma nfd_init_num c e pos g : nfd (init_state c e pos g (NumMode 0)) = 0.
+Proof. reflexivity. Qed.
+
+Theorem ser_top_exact c e pos v : encodable e pos v ->
+  ser_top c e pos (vsig v) (sval_of v) = Ok (marshal_top e pos v, fds_of v).
+Proof.
+  intros (Hw & He & Hl & Hs & Hn). unfold ser_top.
+  rewrite (ser_good v He (init_state c e pos (vsig v) (FdsMode [])) Hw eq_refl eq_refl).
+  - cbn [bind]. unfold after, marshal_top. rewrite abs_pos_init, nfd_init_fds. reflexivity.
+  - split; [unfold dep_ok; cbn; lia|exact Hl].
+  - rewrite nfd_init_fds. lia.
+  - rewrite abs_pos_init, nfd_init_fds. exact Hs.
+Qed.
+
+Theorem size_top_exact c e pos v : encodable e pos v ->
+  size_top c e pos (vsig v) (sval_of v) = Ok (len (marshal_top e pos v), nfds v).
+Proof.
+  intros (Hw & He & Hl & Hs & Hn). unfold size_top.
+  rewrite (ser_good v He (init_state c e pos (vsig v) (NumMode 0)) Hw eq_refl eq_refl).
+  - cbn [bind]. unfold after, marshal_top. rewrite abs_pos_init, nfd_init_num, written_grow. reflexivity.
+  - split; [unfold dep_ok; cbn; lia|exact Hl].
+  - rewrite nfd_init_num. lia.
+  - rewrite abs_pos_init, nfd_init_num. exact Hs.
+Qed.
+
+(* ---------- facts about the specification's padding ---------- *)
+Lemma padn_spec pos al : al <> 0 -> padn pos al < al /\ (pos + padn pos al) mod al = 0.
+Proof.
+  intros Hal. unfold padn. split; [apply N.mod_lt; assumption|].
+  pose proof (N.mod_lt pos al Hal) as Hr. pose proof (N.div_mod pos al Hal) as Hdm.
+  remember (pos mod al) as r eqn:Er. remember (pos / al) as q eqn:Eq.
+  destruct (N.eq_dec r 0) as [E|E].
+  - rewrite E, N.sub_0_r, N.mod_same, N.add_0_r by assumption. congruence.
+  - rewrite (N.mod_small (al - r) al) by lia.
+    replace (pos + (al - r)) with ((q + 1) * al)
+      by (rewrite N.mul_add_distr_r, N.mul_1_l, (N.mul_comm q al); lia).
+    apply N.mod_mul. assumption.
+Qed.
+
+(* non-vacuity: a nested value (dict of variants inside a struct, at an odd offset) is encodable *)
+Example ex_value : dval :=
+  VStruct [VU8 7; VDict SStr SVariant [(VStr (B "k"), VVariant (VArray SI16 [VI16 (-2); VI16 5])); (VStr (B "l"), VVariant (VFd 3))];
+           VSigv (SArray SStr) false; VPath (B "/a/b")].
+Example ex_encodable : encodable BE 5 ex_value.
+Proof. unfold encodable. repeat split; vm_compute; reflexivity. Qed.
